@@ -352,6 +352,9 @@ struct BoundPlan {
     warmup_units: u32,
     second_request_after: Option<u32>,
     boxed: bool,
+    /// per mille of entries the stream refuses with an I/O error: handing an entry over is
+    /// writer progress whether or not the stream liked it
+    err_pm: u64,
 }
 
 fn bounded_history(plan: &BoundPlan, rep: &Report) -> Option<u64> {
@@ -406,6 +409,15 @@ type BoundOut = Result<(u64, Option<u64>, Vec<FlushRec>, Vec<Ev>), String>;
 fn bounded_inner(plan: &BoundPlan) -> BoundOut {
     let sh = StreamShared::new(7);
     sh.set_fuel(Some(0));
+    if plan.err_pm > 0 {
+        // (I/O errors only: a validation error would make the queue write its in-band report entry,
+        // which passes the fuel gate like any entry and would upset this history's unit accounting)
+        let pm = plan.err_pm;
+        sh.set_script(move |k| match k {
+            vcommon::stream::EntryKind::Id(id) if Fnv::new().u64(*id).finish() % 1000 < pm => vcommon::stream::Outcome::Io,
+            _ => vcommon::stream::Outcome::Ok,
+        });
+    }
     let (q, handle) = build(&sh, plan.capacity, Duration::from_micros(1), plan.boxed);
     let stall = default_stall();
     let seq = std::cell::Cell::new(0u32);
@@ -987,6 +999,7 @@ fn native_main(args: &Args, rep: &Report) {
                                 warmup_units: rng.below(70) as u32,
                                 second_request_after: if rng.below(3) == 0 { Some(rng.below(40) as u32) } else { None },
                                 boxed: rng.bool(),
+                                err_pm: *rng.pick(&[0u64, 0, 500, 1000]),
                             };
                             if let Some(h) = bounded_history(&plan, rep) {
                                 rep.distinct(h);
